@@ -383,13 +383,13 @@ def conforms(s, t, v):
         by_py = dict((f.pyname, f) for f in st.input_fields)
         for k in v:
             if k not in by_py:
-                return "unknown key %r in input object" % k
+                return "unknown key in input object holds %r" % k
         for f in st.input_fields:
             if f.pyname not in v:
                 if f.has_default:
-                    return "declared default of %s missing" % f.name
+                    return "declared default missing holds %s" % f.name
                 if f.type[0] == "nonnull":
-                    return "required field %s missing" % f.name
+                    return "required field missing holds %s" % f.name
                 continue
             r = conforms(s, f.type, v[f.pyname])
             if r:
